@@ -8,7 +8,7 @@ the step formats agree with the selector syntax, and unmatched selectors raise.
 import ast
 
 from .. import regexast
-from ..astutil import body_raises, call_simple_name, exc_name, guard_chain, names_in, short
+from ..astutil import body_raises, call_simple_name, exc_name, guard_chain, names_in, pm, short
 from ..cfg import call_name, cfg_of, node_calls
 from ..loader import AnalysisError, FunctionInfo, body_walk, norm, walk_no_nested
 from ..report import key
@@ -87,7 +87,8 @@ def rule_truthiness(ctx, rule_id="C08.truthiness"):
     # the result list of _validate_selector must be tested by length, not by truthiness of elements
     vs = prog.func(MU + "::_validate_selector")
     txt = norm(vs.node)
-    ok = "len(results) >= 1" in txt or "len(results) > 0" in txt or "if results" in txt or "bool(results)" in txt
+    ok = any(pm(txt, p_) is not None for p_ in ("$r = list(_evaluate_expression(", "$r = _evaluate_expression(")) and any(
+        pm(txt, p_) is not None for p_ in ("len($r) >= 1", "len($r) > 0", "if $r:", "bool($r)"))
     run.check(ok, rule_id, key(vs.module.relpath, vs.qualname, "result-tested-by-length"),
               "_validate_selector does not decide on the number of matches", file=vs.module.relpath, line=vs.node.lineno,
               function=vs.qualname, expected="len(results) >= 1", found=short(vs.node, 200))
